@@ -207,7 +207,8 @@ Print Assumptions C09_shuffle_irrelevant.
 
 (* Ddnnf::sample_t_wise (ZippingMerger + SimilarityMerger, trim_and_resample,
    complete_partial_configs; cached SAT states as in the Rust): for every WFQ circuit over n >= 1
-   features with a model and without a node that lists a child twice, every t >= 1, EVERY iteration
+   features with a model and without a node that lists a child twice, every t (t >= 1 is not
+   needed: for t = 0 the sample is merely non-empty), EVERY iteration
    order of the hash sets of cross interactions (ord_int), every order of equally long samples after
    sort_unstable (ord_sort), every shuffle of the literals to resample (ord_shuf) and EVERY choice of
    the configurations that are trimmed (trim_pick: the f64 ranks are abstracted by this oracle), the
@@ -221,7 +222,7 @@ Theorem C09_sample_t_wise_covers : forall (C : circuit) (n t : nat),
   (forall a b c l, Permutation (ord_int a b c l) l) ->
   (forall a l, Permutation (ord_sort a l) l) ->
   (forall l, Permutation (ord_shuf l) l) ->
-  (1 <= n)%nat -> 0 < root_count C -> (1 <= t)%nat ->
+  (1 <= n)%nat -> 0 < root_count C ->
   exists S, sample_t_wise (build C n) t ord_int ord_sort trim_pick ord_shuf = Some (WithSample S) /\
             twise_ok C n t (map c_lits (s_iter S)) = true.
 Proof. exact sample_t_wise_covers. Qed.
@@ -235,13 +236,13 @@ Theorem C09_sample_t_wise_sound_complete : forall (C : circuit) (n t : nat),
   (forall a b c l, Permutation (ord_int a b c l) l) ->
   (forall a l, Permutation (ord_sort a l) l) ->
   (forall l, Permutation (ord_shuf l) l) ->
-  (1 <= n)%nat -> 0 < root_count C -> (1 <= t)%nat ->
+  (1 <= n)%nat -> 0 < root_count C ->
   exists r, sample_t_wise (build C n) t ord_int ord_sort trim_pick ord_shuf = Some r /\
             (forall c, In c (sres_configs r) -> In c (Models C n)) /\
             (forall I, valid_interaction C n t I -> exists c, In c (sres_configs r) /\ incl I c).
 Proof.
-  intros C n t HQ Hd oi os tp sh H1 H2 H3 Hn Hrc Ht.
-  destruct (sample_t_wise_covers C n t HQ Hd oi os tp sh H1 H2 H3 Hn Hrc Ht) as [S [HS Hok]].
+  intros C n t HQ Hd oi os tp sh H1 H2 H3 Hn Hrc.
+  destruct (sample_t_wise_covers C n t HQ Hd oi os tp sh H1 H2 H3 Hn Hrc) as [S [HS Hok]].
   exists (WithSample S). split; [exact HS|]. now apply twise_ok_sound_complete.
 Qed.
 Print Assumptions C09_sample_t_wise_sound_complete.
